@@ -1002,6 +1002,7 @@ class BasePort(logging_utils.LoggableMixin, metaclass=abc.ABCMeta):
             if await self.is_writable():
                 # Write the just-loaded value to the port
                 value = self._last_read_value
+                write = True
                 if self._transform_write:
                     try:
                         value = await self.adapt_value_type(
@@ -1011,8 +1012,13 @@ class BasePort(logging_utils.LoggableMixin, metaclass=abc.ABCMeta):
                         )
                     except core_expressions.ValueUnavailable:
                         value = None
+                    except Exception as e:
+                        # E.g. the port is disabled; a failing transform must not prevent the hub from starting
+                        self.error('failed to apply write transform to loaded value: %s', e)
+                        write = False
 
-                await self.write_value(value)
+                if write:
+                    await self.write_value(value)
         elif self.is_enabled():
             try:
                 value = await self.read_transformed_value()
